@@ -375,7 +375,8 @@ pub fn stroke_to_path(path: &Path, style: &StrokeStyle) -> Path {
                         join_line(&mut stroked_path, style, end_point, last_normal, start_normal);
                     }
                 }
-                cur_pt = start_point.map(|x| x.0);
+                // a subpath without a segment yet (move_to; close) starts at the point we're already at
+                cur_pt = start_point.map(|x| x.0).or(cur_pt);
                 start_point = None;
             }
             PathOp::QuadTo(..) => panic!("Only flat paths handled"),
